@@ -172,7 +172,8 @@ PROPS = {
     },
     "C17": {
         "proof_files": ["Proofs/StoreFacts.v", "Proofs/ConfigFacts.v"],
-        "runs": [{"engine": "config", "args": [], "n_quick": 200, "n_thorough": 15000, "netns": True}],
+        "runs": [{"engine": "config", "args": [], "n_quick": 200, "n_thorough": 15000, "netns": True},
+                 {"engine": "daemon", "args": ["-mode", "svc"], "n_quick": 4, "n_thorough": 60, "netns": True, "mountns": True}],
         "trivial_tags": [r"^rejected$"],
         "rule": "random option sets (repeated -listen, 0-4 -profile entries of every condition kind incl. interfaces and the deprecated -config "
                 "spelling, 0-3 -forwarder entries, every boolean / duration / size / uint option incl. values above 65535) through the real "
@@ -199,7 +200,8 @@ PROPS = {
     },
     "C19": {
         "proof_files": ["Proofs/ResolvFacts.v"],
-        "runs": [{"engine": "resolvconf", "args": [], "n_quick": 120, "n_thorough": 6000, "netns": True, "mountns": True}],
+        "runs": [{"engine": "resolvconf", "args": [], "n_quick": 120, "n_thorough": 6000, "netns": True, "mountns": True},
+                 {"engine": "daemon", "args": ["-mode", "act"], "n_quick": 3, "n_thorough": 30, "netns": True, "mountns": True}],
         "trivial_tags": [r"crash0$"],
         "rule": "generated resolv.conf contents (comments, options, several nameservers incl. tab-separated and indented ones, empty lines, "
                 "missing final newline; regular file or symlink) x sequences of 1-4 activations/deactivations with the real host.SetDNS / "
